@@ -165,6 +165,18 @@ class ArrSession:
                 shape = tuple(act["shape"])
                 wrong = tuple(s + 1 for s in shape)
                 self.blk.create_data_array("arr", "t", data=np.zeros(wrong), shape=shape)
+            elif n == "CreateBad":
+                kind = act["kind"]
+                if kind == "dtype_unknown":
+                    self.blk.create_data_array("arr", "t", dtype="no-such-type", shape=(2, 3))
+                elif kind == "object_data":
+                    self.blk.create_data_array("arr", "t", data=[object(), 1])
+                elif kind == "mixed_text":
+                    self.blk.create_data_array("arr", "t", data=["text", 1.5])
+                elif kind == "label_type":
+                    self.blk.create_data_array("arr", "t", data=np.zeros((2, 2)), label=5)
+                else:
+                    self.blk.create_data_array("arr", "t", data=np.zeros((2, 2)), unit=5)
             elif n == "WriteAll":
                 h = self.handle()
                 data = c.block(self.nw + 1, h.shape, raws_after)
@@ -208,6 +220,9 @@ class ArrSession:
             elif n == "SetCoef":
                 h = self.handle()
                 h.polynom_coefficients = [float(x) for x in act["c"]] if act["c"] else None
+            elif n == "SetCoefBad":
+                h = self.handle()
+                h.polynom_coefficients = [1.0, "x"]
             elif n == "SetOrigin":
                 h = self.handle()
                 h.expansion_origin = None if act["o"] == NONE else float(act["o"]) + (0.1 if c.frac and act["o"] != 0 else 0.0)
@@ -414,10 +429,15 @@ def replay_one(tx):
                 return sess.apply(act, raws)
             return sess.apply(act)
 
-        for a in tx["hist"]:
+        for k_, a in enumerate(tx["hist"]):
             exc = do(a)
             res["calls"] += 1
             if (exc is None) != (a["out"] == "ok"):
+                # reported here as well: the transition this call belongs to may have been skipped by the stride
+                res["findings"].append(mk("outcome", {"hist": tx["hist"][:k_], "act": a},
+                                          "accepted" if exc is None else "raised_" + type(exc).__name__,
+                                          {"expected": a["out"], "observed": "ok" if exc is None else repr(exc)[:200],
+                                           "in_history_at": k_ + 1}))
                 res["truncated"] = 1
                 return res
         pre = []
